@@ -868,6 +868,9 @@ func (e *renv) runMacro(m mac, seqNo int) error {
 		}()
 		select {
 		case <-e.closedSetCh:
+		case <-res.done:
+			// the call ended without reaching the point (it panicked: recorded above): the script goes on
+			return nil
 		case <-time.After(opDeadline):
 			noteMiss("select")
 			return fmt.Errorf("stop never reached closedSet")
@@ -1185,8 +1188,9 @@ func (e *renv) cleanup() {
 	}
 	stopped := make(chan struct{})
 	go func() {
+		defer close(stopped)
+		defer func() { recover() }() // clean-up only: a Stop that panics is observed in the cases that call it
 		e.r.Stop()
-		close(stopped)
 	}()
 	select {
 	case <-stopped:
